@@ -1,6 +1,7 @@
 import PestModel.Model.RefSpec
 import PestModel.Lemmas.Ref
 import PestModel.Lemmas.RefAll
+import PestModel.Lemmas.OptSkipCap
 /-!
 # C05 — optimizer passes preserve the meaning of every grammar
 
@@ -203,5 +204,17 @@ theorem pipeline_preserves_without_list (rules : List Rule) (extras : Bool) (oru
     (rule : String) (input : PestModel.LineCol.Str) (r : Res) :
     Means rules extras uni rule input r ↔ Means (ofOptimizedRules orules) extras uni rule input r := by
   exact pipeline_means rules extras orules uni hany h rule input r
+
+/-- **The `skip` pass model is the code as written**: `populate_choices` leaves as soon as its list is longer than
+`MAX_SKIP_STRINGS` (regenerated from skipper.rs); since the list only grows and every inlined list ends up inside the final one,
+that is the same as refusing a finished list that is too long — which is how `skipF`, the function all theorems above are
+about, states it. -/
+theorem skip_pass_as_written (rules : List Rule) (e : Expr) : skipF rules e = skipFAsWritten rules e :=
+  skipF_as_written rules e
+
+/-- `populate_choices` with its early exit = the bound applied to the result of the unbounded function. -/
+theorem populate_choices_bound (cap : Nat) (rules : List Rule) (fuel : Nat) (e : Expr) (ch : List PestModel.LineCol.Str) :
+    populateChoicesCapped cap rules fuel e ch = capResult cap (populateChoices rules fuel e ch) :=
+  populateChoicesCapped_eq cap rules fuel e ch
 
 end PestModel.C05
